@@ -122,12 +122,12 @@ def small_layouts(ctx):
                     g[y][x] = r.choice([gen.WALL, (gen.TY['Exit'], 0, 0, None), (gen.TY['Key'], 0, 1, None)])
                 cg = tuple(tuple(row) for row in g)
                 yield ([3], (cg, (0, 0), 3, gen.NONE), r.randrange(8))
-    # telepods: all placements of 1..4 telepods of two colours on small grids, agent on the first
+    # telepods: all placements of 1..4 telepods of two colours (NONE and another) on small grids, agent on the first
     for h, w in ((1, 3), (2, 2), (2, 3)):
         cells = [(y, x) for y in range(h) for x in range(w)]
         for k in (1, 2, 3, 4):
             for pods in itt.combinations(cells, k):
-                for cols in itt.product((1, 2), repeat=k):
+                for cols in itt.product((0, 2), repeat=k):          # NONE is a colour like any other
                     g = [[gen.FLOOR for _ in range(w)] for _ in range(h)]
                     for (y, x), c in zip(pods, cols):
                         g[y][x] = (TP, 0, c, None)
@@ -144,11 +144,12 @@ def state_fix(r, cs):
         for _ in range(r.randint(1, 4)):
             g = gen.set_cell(g, (r.randrange(h), r.randrange(w)), OBST)
     elif k < 0.9:
-        col = r.choice([1, 2])
+        col = r.choice([0, 0, 1, 2])
+        other = r.choice([c for c in (0, 1, 2) if c != col])
         g = gen.set_cell(g, p, (TP, 0, col, None))
         for _ in range(r.randint(0, 3)):
             q = (r.randrange(h), r.randrange(w))
-            g = gen.set_cell(g, q, (TP, 0, r.choice([col, col, 3 - col]), None))
+            g = gen.set_cell(g, q, (TP, 0, r.choice([col, col, other]), None))
     return (g, p, o, held)
 
 
